@@ -20,7 +20,10 @@ import (
 type Case struct {
 	X1, X2     []float64 // finite values, any order
 	Confidence float64
-	Alpha      float64
+	// Confidence2, if non-zero, is a second level within ~1e-7 of Confidence for which the
+	// summaries are computed right afterwards: a summary is a function of (sample, level).
+	Confidence2 float64
+	Alpha       float64
 	Assume     string // "nothing" | "exact" | "normal"
 	Shuffle    []int  // drives a reordering of the samples
 	ScaleExp   int    // common rescaling by 2^ScaleExp
@@ -323,6 +326,16 @@ func Check(c Case) (v vcase.Verdict) {
 	if v.Violation != "" {
 		return
 	}
+	if c.Confidence2 > 0 && c.Confidence2 < 1 {
+		c2 := c
+		c2.Confidence = c.Confidence2
+		checkSummary(&v, c2, c.X1)
+		if v.Violation != "" {
+			v.Violation = "(second, nearby confidence level) " + v.Violation
+			return
+		}
+		v.Label("nearby_confidence_pair")
+	}
 	mk := func(xs []float64) *benchmath.Sample { return benchmath.NewSample(append([]float64(nil), xs...), th) }
 	cmp := a.Compare(mk(c.X1), mk(c.X2))
 	n1, n2 := len(c.X1), len(c.X2)
@@ -534,6 +547,25 @@ func Gen(t *rapid.T) Case {
 	}
 	if c.Confidence <= 0 || c.Confidence >= 1 {
 		c.Confidence = 0.95
+	}
+	if vcase.OneIn(t, 3, "conf2") {
+		// two levels a few 1e-8 apart on either side of a coverage step of the sample size at hand
+		n := len(c.X1)
+		if n >= 2 && n <= 30 {
+			step := 1 - math.Ldexp(1, 1-n)
+			if rapid.Bool().Draw(t, "innerstep") && n >= 4 {
+				// coverage of the order statistics [2, n-1]: 1 - 2(n+1)/2^n
+				step = 1 - float64(2*(n+1))/math.Ldexp(1, n)
+			}
+			d := rapid.SampledFrom([]float64{2e-8, 1e-7, 5e-9}).Draw(t, "confdelta")
+			c.Confidence, c.Confidence2 = step-d, step+d
+			if rapid.Bool().Draw(t, "conforder") {
+				c.Confidence, c.Confidence2 = c.Confidence2, c.Confidence
+			}
+			if c.Confidence <= 0 || c.Confidence >= 1 || c.Confidence2 <= 0 || c.Confidence2 >= 1 {
+				c.Confidence, c.Confidence2 = 0.95, 0
+			}
+		}
 	}
 	c.Alpha = rapid.SampledFrom([]float64{0, 0.001, 0.01, 0.05, 0.1, 0.5, 1, 1.0 / 3, 0.02857142857142857}).Draw(t, "alpha")
 	c.Assume = rapid.SampledFrom([]string{"nothing", "nothing", "exact", "normal"}).Draw(t, "assume")
